@@ -493,6 +493,37 @@ def stepLog (s : LogSt) (f : List String) (got : String) : StepResult St :=
           { st := .log { s with peers := setPeer s.peers (b - 1) q' }, expected := some s!"{dumpPeer q'} steps={steps}", spec := fails,
             cov := ["drain"] ++ (if steps ≥ 50 then ["drain-long"] else []), nontrivial := steps > 0 }
     else skip
+  | ["rv", shape, modT, verbT, param] =>
+    -- a readvertise command Interest of any shape through the real readvertiseOnInterest: six components
+    -- or not, module, verb, parameters that carry a name or not
+    match shape.toNat? with
+    | none => skip
+    | some comps =>
+      let name : Option Nat := match param.toNat? with
+        | some id => if 100 ≤ id && id < 100 + numApp then some id else none
+        | none => none
+      if param.toNat?.isSome && name.isNone then skip else
+      let c : RvCmd := ⟨comps, modT, verbT, name⟩
+      let (pub', st) := s.pub.readvertise c
+      let wantOp : Option Spec.PubOp :=
+        if comps == 6 && modT == "rib" then
+          match name with
+          | some n => if verbT == "register" then some (.announce n) else if verbT == "unregister" then some (.withdraw n) else none
+          | none => none
+        else none
+      let s1 := if got == "skip" then s else match wantOp with | some op => specPubOp s op | none => s
+      let gotStatus := if (got.splitOn " status=").length > 1 then "400" else "200"
+      let fails := if got == "skip" then [] else
+        specPubCheck s1 ((got.splitOn " status=").headD got) ++
+        (if isCrash got then [] else
+         if wantOp.isSome && gotStatus != "200" then
+           [⟨"readvertise-status", "refused", s!"a well-formed readvertise command ({verbT} {param}) was not answered 200: {got}"⟩]
+         else if wantOp.isNone && gotStatus == "200" then
+           [⟨"readvertise-status", "accepted", s!"a readvertise command that is not well-formed ({comps} components, module {modT}, verb {verbT}, parameters {param}) was answered 200: {got}"⟩]
+         else [])
+      { st := .log { s1 with pub := pub' }, expected := some (dumpPub pub' ++ (if st == 200 then "" else " status=400")), spec := fails,
+        cov := [if st == 200 then "rv-accepted" else if comps != 6 then "rv-wrong-length" else if modT != "rib" then "rv-wrong-module"
+                else if name.isNone then "rv-no-name" else "rv-wrong-verb"] }
   | ["pairs", b, m] =>
     match peerOf b, m.toNat? with
     | some (b, q), some m =>
@@ -569,7 +600,7 @@ def step (st : St) (op : String) (got : String) : StepResult St :=
         -- keep the spec replay meaningful even on an op the model does not know
         { st := st, expected := some "skip" }
     | .log s =>
-      if ["ann", "wd", "burst", "sync", "pairs", "prestart", "reach", "unreach", "deliver", "timeout", "drain"].contains (f.headD "") then stepLog s f got
+      if ["ann", "wd", "rv", "burst", "sync", "pairs", "prestart", "reach", "unreach", "deliver", "timeout", "drain"].contains (f.headD "") then stepLog s f got
       else { st := st, expected := some "skip" }
 
 end C19Drv
